@@ -260,13 +260,19 @@ def inlineProp (fuel : Nat) (ts : List Tok) : Option (Except Err (List Ev × Lis
   | _ => none
 where
   tail (key : List Tok) (keyEvs : List Ev) (c1 c2 : Tok) (rest : List Tok) : Option (Except Err (List Ev × List Tok)) :=
-      let inner := rest.takeWhile (fun t => t.name != "']'" && t.name != "NL")
-      -- `SPACE? id_group (SPACE id_group)*`: every word of the value starts with an id token
-      let body := match inner with | s :: r => if s.name == "SPACE" then r else inner | [] => []
-      let wordsOk : Bool := !body.isEmpty && (body.head?.map isIdTok).getD false &&
-        (body.zip (body.drop 1)).all (fun (a, b) => a.name != "SPACE" || isIdTok b) &&
-        (body.getLast?.map (·.name != "SPACE")).getD false &&
-        body.all (fun t => t.name == "SPACE" || isIdTok t || isAnySym t)
+      -- `']'` is also an `any_sym`, so the value may run over a closing bracket: the parser (greedy loops, ALL(*) lookahead)
+      -- closes the property at the LAST `']'` up to which the tokens still read as `SPACE? id_group (SPACE id_group)*`
+      let run := rest.takeWhile (fun t => t.name == "SPACE" || isIdTok t || isAnySym t)
+      let okUpTo (n : Nat) : Bool :=
+        let inner := run.take n
+        -- every word of the value starts with an id token
+        let body := match inner with | s :: r => if s.name == "SPACE" then r else inner | [] => []
+        !body.isEmpty && (body.head?.map isIdTok).getD false &&
+          (body.zip (body.drop 1)).all (fun (a, b) => a.name != "SPACE" || isIdTok b) &&
+          (body.getLast?.map (·.name != "SPACE")).getD false
+      let cuts := (List.range run.length).filter (fun n => (run[n]?.map (·.name == "']'")).getD false && okUpTo n)
+      let inner := match cuts.getLast? with | some n => run.take n | none => rest.takeWhile (fun t => t.name != "']'" && t.name != "NL")
+      let wordsOk : Bool := cuts.getLast?.isSome
       match rest.drop inner.length with
       | c :: after =>
         if c.name == "']'" && wordsOk then
